@@ -344,7 +344,64 @@ def fill_level_rule(cx, rep, rid):
     rep.floor(rid, "statements that raise the fill level of the digest writer's block buffer", n, 1)
 
 
+# ---------------------------------------------------------------------------------------------------- C03.24
+def same_input_merge_rule(cx, rep, rid):
+    """A class that asks SEVERAL child validators to parse the SAME input (a union's matching branches, the members of
+    an intersection) gets several projections of one value; the parsed result is their union at every depth - the deep
+    merge the module keeps for that purpose.  A shallow combination (`{...acc, ...parsed}`, Object.assign) keeps, for a
+    key both projections carry, only the LAST member's part: `{a: {x: string}} & {a: {y: number}}` parsed
+    `{a: {x, y}}` to `{a: {y}}`, which the same validator rejects.  Decided: in every parseAfterValidation method, a
+    value obtained from `<child>.parseAfterValidation(ctx, <the method's own input>)` is never the argument of an
+    object spread or of Object.assign; where such calls sit in a loop (or occur twice) the method calls the deep merge."""
+    from rules.ts_common import Family, fn_params
+    fam = Family(cx)
+    mod = fam.mod
+    n = 0
+    for cname, c in sorted(fam.classes.items()):
+        m = c.methods.get("parseAfterValidation")
+        if not m or m.get("function") is None or m["function"].get("body") is None:
+            continue
+        fn = m["function"]
+        ps = fn_params(fn)
+        if len(ps) < 2:
+            continue
+        inp = ps[1]
+        calls = [x for x in twalk(fn) if x["type"] == "CallExpression" and ts_s(x["callee"]).endswith(".parseAfterValidation")
+                 and len(x["arguments"]) >= 2 and ts_s(x["arguments"][1]["expression"]) == inp]
+        if not calls:
+            continue
+        in_loop = False
+        for lp in twalk(fn):
+            if lp["type"] in ("ForOfStatement", "ForInStatement", "ForStatement", "WhileStatement") and any(any(y is c_ for y in twalk(lp)) for c_ in calls):
+                in_loop = True
+        if not in_loop and len(calls) < 2:
+            continue        # one child, one projection: nothing to combine
+        n += 1
+        results = set()
+        for d in twalk(fn):
+            if d["type"] == "VariableDeclarator" and d.get("init") is not None and any(d["init"] is c_ or unparen(d["init"]) is c_ for c_ in calls) and d["id"].get("type") == "Identifier":
+                results.add(d["id"]["value"])
+        shallow = []
+        for x in twalk(fn):
+            if x["type"] == "ObjectExpression":
+                for pr in x.get("properties", []):
+                    if pr.get("type") == "SpreadElement":
+                        a = unparen(pr["arguments"]) if "arguments" in pr else unparen(pr.get("argument", {}))
+                        if (a.get("type") == "Identifier" and a["value"] in results) or any(a is c_ for c_ in calls):
+                            shallow.append(x)
+            if x["type"] == "CallExpression" and ts_s(x["callee"]) == "Object.assign" and any(
+                    (unparen(a_["expression"]).get("type") == "Identifier" and unparen(a_["expression"])["value"] in results) or any(unparen(a_["expression"]) is c_ for c_ in calls) for a_ in x["arguments"]):
+                shallow.append(x)
+        deep = any(x["type"] == "CallExpression" and ts_s(x["callee"]) == "deepmerge" for x in twalk(fn))
+        rep.ob(rid, "%s.parseAfterValidation/deep-merge" % cname, not shallow and deep,
+               "%s.parseAfterValidation asks several child validators to parse the same input and combines their results %s: for a key two results carry only the last one's part survives - `{a: {x: string}} & {a: {y: number}}` parses `{a: {x, y}}` to `{a: {y}}`, which the same validator rejects" % (
+                   cname, "with an object spread / Object.assign (shallow)" if shallow else "without the module's deep merge"),
+               mod.loc(shallow[0]) if shallow else mod.loc(fn), sample={"class": cname, "same_input_calls": len(calls)})
+    rep.floor(rid, "classes that parse one input with several child validators", n, 2)
+
+
 REGISTRY = {
+    "C03": [("C03.24", "the results of several child validators for the SAME input are combined by the deep merge, never by a shallow spread", same_input_merge_rule)],
     "C13": [("C13.14", "a method that fills the block buffer compresses a full block before it returns (the padding byte always fits)", fill_level_rule)],
     "C04": [("C04.14", "a comparator handed to a standard sort is a composition of key comparisons (no choice of comparison by a test on the pair)", comparator_rule)],
     "C07": [("C07.17", "a raw intersection node is constructed by the merging smart constructor only (or consumed by the engine on the spot)", raw_intersection_rule),
